@@ -142,38 +142,7 @@ cross-reference entry, followed by any end-of-line bytes (SP LF, SP CR, CR LF â€
 back as (offset, generation, in-use) for every offset below 10^10 and generation below 10^5. -/
 theorem xref_entry_roundtrip (off gen : Nat) (inUse : Bool) (eol : Str)
     (hoff : off < 10 ^ 10) (hgen : gen < 10 ^ 5) :
-    parseEntry (fmtEntry off gen inUse ++ eol) = some ((off : Int), (gen : Int), inUse) := by
-  have hl1 : (padDec 10 off).length = 10 := padDec_length 10 off (dec_length_le off 9 hoff)
-  have hl2 : (padDec 5 gen).length = 5 := padDec_length 5 gen (dec_length_le gen 4 hgen)
-  unfold parseEntry fmtEntry
-  have hlen : Â¬ ((padDec 10 off ++ [32] ++ padDec 5 gen ++ [32] ++ [if inUse then 110 else 102] ++ eol).length < 18) := by
-    simp [hl1, hl2]; omega
-  simp only [hlen, if_false]
-  have t1 : (padDec 10 off ++ [32] ++ padDec 5 gen ++ [32] ++ [if inUse then 110 else 102] ++ eol).take 10 = padDec 10 off := by
-    simp only [List.append_assoc]
-    rw [List.take_append_of_le_length (by omega)]
-    exact List.take_of_length_le (by omega)
-  have d1 : (padDec 10 off ++ [32] ++ padDec 5 gen ++ [32] ++ [if inUse then 110 else 102] ++ eol).drop 10 =
-      32 :: (padDec 5 gen ++ ([32] ++ ([if inUse then 110 else 102] ++ eol))) := by
-    simp only [List.append_assoc]
-    rw [List.drop_append_of_le_length (by omega)]
-    simp [hl1]
-  have t2 : ((padDec 10 off ++ [32] ++ padDec 5 gen ++ [32] ++ [if inUse then 110 else 102] ++ eol).drop 10).take 6 = 32 :: padDec 5 gen := by
-    rw [d1]
-    simp only [List.take_succ_cons]
-    rw [List.take_append_of_le_length (by omega)]
-    congr 1
-    exact List.take_of_length_le (by omega)
-  have d2 : (padDec 10 off ++ [32] ++ padDec 5 gen ++ [32] ++ [if inUse then 110 else 102] ++ eol).drop 16 =
-      32 :: ((if inUse then 110 else 102) :: eol) := by
-    have : (16 : Nat) = 10 + 6 := rfl
-    rw [this, â† List.drop_drop, d1]
-    simp only [List.drop_succ_cons]
-    rw [List.drop_append_of_le_length (by omega)]
-    simp [hl2]
-  rw [t1, t2, d2]
-  rw [trimSpace_digits _ (padDec_digits 10 off), trimSpace_space_digits _ (padDec_digits 5 gen)]
-  rw [atoi_padDec 10 off (by unfold maxInt64; omega), atoi_padDec 5 gen (by unfold maxInt64; omega)]
-  cases inUse <;> simp [trimSpace, List.dropWhile, isSpace]
+    parseEntry (fmtEntry off gen inUse ++ eol) = some ((off : Int), (gen : Int), inUse) :=
+  parseEntry_fmtEntry off gen inUse eol hoff hgen
 
 end Tabula.C04
